@@ -825,7 +825,7 @@ class Vcf(Family):
     prelude = "From TskVerif Require Import Base.Common C16.Model.\nOpen Scope Z_scope."
 
     def generate(self, rng, tier):
-        n = 1400 if tier == "quick" else 40000
+        n = 1400 if tier == "quick" else 20000
         for k in range(n):
             yield gen_case(rng, many_alleles=(k % 7 == 0))
 
@@ -993,7 +993,7 @@ class Mapping(Family):
     prelude = "From TskVerif Require Import Base.Common C16.Model.\nOpen Scope Z_scope."
 
     def generate(self, rng, tier):
-        for _ in range(1200 if tier == "quick" else 30000):
+        for _ in range(1200 if tier == "quick" else 12000):
             yield gen_mapping_case(rng)
 
     def observe(self, case):
